@@ -44,8 +44,12 @@ type c11Case struct {
 	Class   string          `json:"class"`
 }
 
-func vp8Decode(b []byte) Ev {
-	p := &codecs.VP8Packet{}
+func vp8Decode(b []byte) Ev { return vp8DecodeInto(&codecs.VP8Packet{}, b) }
+
+// a descriptor with every optional field present and every field non-zero, then one payload byte
+var vp8Rich = []byte{0xB7, 0xF0, 0xFF, 0xFF, 0xFF, 0xFF, 0x55}
+
+func vp8DecodeInto(p *codecs.VP8Packet, b []byte) Ev {
 	var out []byte
 	var err error
 	var head bool
@@ -72,7 +76,12 @@ func runC11(raw json.RawMessage, w *Writer) {
 			in = []byte{}
 		}
 		d := vp8Decode(in)
-		w.Emit(Ev{"ev": "decode", "bytes": c.Bytes, "dlen": c.Dlen, "want": c.Want, "wantok": c.WantOk, "res": d["res"], "f": d["f"], "out": d["out"], "head": d["head"]})
+		// the same descriptor into a VP8Packet that has decoded a descriptor with every field set before
+		usedP := &codecs.VP8Packet{}
+		guard(func() { _, _ = usedP.Unmarshal(cloneBytes(vp8Rich)) })
+		u := vp8DecodeInto(usedP, in)
+		w.Emit(Ev{"ev": "decode", "bytes": c.Bytes, "dlen": c.Dlen, "want": c.Want, "wantok": c.WantOk, "res": d["res"], "f": d["f"], "out": d["out"], "head": d["head"],
+			"used": Ev{"res": u["res"], "f": u["f"], "out": u["out"]}})
 	case "payload":
 		p := &codecs.VP8Payloader{EnablePictureID: c.PidOn}
 		codecs.VerifSetVP8PictureID(p, uint16(c.StartID))
